@@ -8,6 +8,7 @@ import (
 
 	sdk "github.com/cosmos/cosmos-sdk/types"
 
+	"github.com/comdex-official/comdex/app/wasm/bindings"
 	lockertypes "github.com/comdex-official/comdex/x/locker/types"
 
 	"verif/ev"
@@ -22,10 +23,17 @@ import (
 type c18LockerMon struct {
 	u   *cdpU
 	rec *ev.Rec
+	// the saving-rate change being observed
+	chgApp, chgAsset uint64
+	chgOldRate       sdk.Dec
+	chgCollectorTime time.Time
 }
 
-
 func (m *c18LockerMon) Observe(pre, post *cdpSnap, e *cdpEvent) {
+	if e.Kind == "env" && e.Op == "lsr-change" {
+		m.rateChange(pre, post, e)
+		return
+	}
 	if e.Kind != "tx" || !e.Res.OK() {
 		return
 	}
@@ -85,13 +93,88 @@ func (m *c18LockerMon) Observe(pre, post *cdpSnap, e *cdpEvent) {
 	m.rec.Distinct("C18-locker", op, pl.NetBalance.BigInt().BitLen()/4, c18Bits(elapsed)/3, credited.Sign())
 }
 
+// rateChange: governance changed the saving rate of (app, asset); the collector settles every locker at the OLD rate
+// up to now. Each locker may be credited at most what its balance accrues at the old rate since its last stamp.
+func (m *c18LockerMon) rateChange(pre, post *cdpSnap, e *cdpEvent) {
+	c := m.u.c
+	for id, pl := range pre.Lockers {
+		if pl.AppId != m.chgApp || pl.AssetDepositId != m.chgAsset {
+			continue
+		}
+		ql, ok := post.Lockers[id]
+		if !ok {
+			continue
+		}
+		credited := ql.ReturnsAccumulated.Sub(pl.ReturnsAccumulated).BigInt()
+		stamp := pl.BlockTime
+		if pl.BlockHeight == 0 {
+			stamp = m.chgCollectorTime
+		}
+		elapsed := int64(c.Header.Time.Sub(stamp).Seconds())
+		m.rec.Eval(1)
+		m.rec.Count("insitu_locker/rate_change_credits_checked", 1)
+		w := map[string]interface{}{"event": e.String(), "locker": id, "balance_before": pl.NetBalance.String(), "old_rate": m.chgOldRate.String(), "seconds_since_last_stamp": elapsed, "credited": credited.String()}
+		if credited.Sign() < 0 {
+			m.rec.Violate("C18/insitu/locker/rate-change/negative", "the locker's accumulated returns decreased", w)
+			continue
+		}
+		if elapsed <= 0 {
+			if credited.Sign() != 0 {
+				m.rec.Violate("C18/insitu/locker/rate-change/nonzero-at-zero-time", fmt.Sprintf("%s units credited although no time has elapsed", credited), w)
+			}
+			continue
+		}
+		ref, _ := mon.C18Compound(pl.NetBalance.BigInt(), mon.C18Ln1p(c18Rat(m.chgOldRate)), elapsed, c18Year)
+		bound := new(big.Rat).Mul(ref, big.NewRat(1_000_000_001, 1_000_000_000))
+		bound.Add(bound, big.NewRat(2, 1))
+		if new(big.Rat).SetInt(credited).Cmp(bound) > 0 {
+			w["reference_accrual_at_old_rate"] = ref.FloatString(6)
+			m.rec.Violate("C18/insitu/locker/rate-change/credited-more-than-the-old-rate-accrues", fmt.Sprintf("%s units credited, the balance accrues %s at the old rate over %d s", credited, ref.FloatString(3), elapsed), w)
+		}
+		if credited.Sign() > 0 {
+			m.rec.Count("insitu_locker/rate_change_credits_positive", 1)
+		}
+	}
+}
+
+// lsrChange: a governance contract message changes the locker saving rate of one (app, asset).
+func (m *c18LockerMon) lsrChange(r *cdpRunner) {
+	u := m.u
+	c := u.c
+	app := u.cdpApps[r.rnd.Intn(len(u.cdpApps))]
+	as := u.byDenom[[]string{"ucmst", "ucmtw"}[r.rnd.Intn(2)]]
+	cl, found := c.App.CollectorKeeper.GetCollectorLookupTable(c.Ctx(), app, as.ID)
+	if !found {
+		return
+	}
+	rates := []string{"0", "0.05", "0.1", "0.3", "0.5"}
+	nr := dec(rates[r.rnd.Intn(len(rates))])
+	if nr.Equal(cl.LockerSavingRate) {
+		return
+	}
+	m.chgApp, m.chgAsset, m.chgOldRate, m.chgCollectorTime = app, as.ID, cl.LockerSavingRate, cl.BlockTime
+	if _, rewarded := c.App.Rewardskeeper.GetReward(c.Ctx(), app, as.ID); !rewarded {
+		m.chgOldRate = sdk.ZeroDec() // lockers of this (app, asset) earn nothing
+	}
+	r.env("lsr-change", fmt.Sprintf("app=%d asset=%d %s -> %s", app, as.ID, cl.LockerSavingRate, nr), func() {
+		err := c.Gov(bindings.ComdexMessages{MsgUpdateCollectorLookupTable: &bindings.MsgUpdateCollectorLookupTable{AppID: app, AssetID: as.ID, DebtThreshold: cl.DebtThreshold, SurplusThreshold: cl.SurplusThreshold,
+			LotSize: cl.LotSize, DebtLotSize: cl.DebtLotSize, BidFactor: cl.BidFactor, LSR: nr}})
+		if err == nil {
+			m.rec.Count("insitu_locker/rate_changes", 1)
+		}
+	})
+}
+
 func c18Lockers(t *testing.T, rec *ev.Rec) {
 	for run := 0; run < ev.Pick(1, 3); run++ {
 		variant := ev.ShardNo()*3 + run
 		u := newCDP(t, cdpOpts{variant: variant})
-		r := newCdpRunner(u, rng("C18-lockers", variant), rec, cdpCfg{lockers: true, maxGap: 200 * 24 * time.Hour}, &c18LockerMon{u: u, rec: rec})
+		lm := &c18LockerMon{u: u, rec: rec}
+		r := newCdpRunner(u, rng("C18-lockers", variant), rec, cdpCfg{lockers: true, maxGap: 200 * 24 * time.Hour}, lm)
 		for i := 0; i < ev.Pick(1500, 8000) && !r.panicked; i++ {
-			if r.rnd.Intn(3) == 0 {
+			if r.rnd.Intn(60) == 0 {
+				lm.lsrChange(r)
+			} else if r.rnd.Intn(3) == 0 {
 				r.lockerOp()
 			} else {
 				r.step()
